@@ -1,6 +1,655 @@
-/- C17 - property theorems (stub: not built yet) -/
+/-
+C17 - Plugin processes are contained: validated replies, bounded output, bounded time.
+Property theorems only; the model is in `Model/C17.lean`, the facts about the Go source in
+`Generated/C17.lean` (regenerated on every run).
+-/
 import NotationModel.Model.C17
+set_option linter.unusedSimpArgs false
+set_option linter.unusedVariables false
 
 namespace NotationModel.C17
+
+/-! ### obligations on the facts read from the Go source (decidable, re-checked on every run) -/
+
+/-- the command is built with `exec.CommandContext` on the caller's context -/
+theorem facts_context_bound : Facts.commandContextBound = true := by decide
+
+/-- `cmd.WaitDelay` is assigned a positive delay of at most the 5 s the property allows -/
+theorem facts_wait_delay :
+    (match Facts.waitDelayMs with
+     | some d => decide (0 < d ∧ d ≤ specDelayMs)
+     | none => false) = true := by decide
+
+/-- both `cmd.Stdout` and `cmd.Stderr` are the repository's limit writer with the 64 MiB cap -/
+theorem facts_both_streams_capped :
+    Facts.stdoutLimit = some specCap ∧ Facts.stderrLimit = some specCap ∧
+    Facts.maxPluginOutputSize = specCap := by decide
+
+/-- the checks `validate` must make -/
+def expectedChecks : List String :=
+  ["metadata.Name==\"\"", "metadata.Description==\"\"", "metadata.Version==\"\"",
+   "metadata.URL==\"\"", "len(metadata.Capabilities)==0",
+   "len(metadata.SupportedContractVersions)==0",
+   "!slices.Contains(metadata.SupportedContractVersions,plugin.ContractVersion)"]
+
+/-- `validate` makes exactly these checks (in any order: they are independent) -/
+theorem facts_validate_checks :
+    (expectedChecks.all (Facts.validateChecks.contains ·) &&
+     Facts.validateChecks.all (expectedChecks.contains ·)) = true := by decide
+
+/-- the error codes are distinct, none is empty (so an error object carrying one is never
+"incomplete"), and the generic code is among them -/
+theorem facts_error_codes :
+    (Facts.errorCodes.map (·.2)).Nodup ∧ (Facts.errorCodes.all (fun c => c.2 != "")) = true ∧
+    (Facts.errorCodes.map (·.2)).contains "ERROR" = true ∧ Facts.errorCodes.length = 6 := by decide
+
+/-- the host asks for a non-empty contract version -/
+theorem facts_contract_version : (Facts.contractVersion != "") = true := by decide
+
+theorem codeCfg_ctxBound : codeCfg.ctxBound = true := facts_context_bound
+
+theorem codeCfg_waitDelay : ∃ d, codeCfg.waitDelay = some d ∧ d ≤ specDelayMs := by
+  have h := facts_wait_delay
+  unfold codeCfg
+  cases hw : Facts.waitDelayMs with
+  | none => simp [hw] at h
+  | some d => simp [hw] at h; exact ⟨d, rfl, h.2⟩
+
+theorem codeCfg_stdoutLimit : codeCfg.stdoutLimit = some specCap := facts_both_streams_capped.1
+theorem codeCfg_stderrLimit : codeCfg.stderrLimit = some specCap := facts_both_streams_capped.2.1
+
+/-! ### (i) the limit writer -/
+
+/-- one `Write` never increases `N` -/
+theorem lwWrite_le (N : Int) (s : WStep) : (lwWrite N s).1 ≤ N := by
+  unfold lwWrite
+  split
+  · exact Int.le_refl _
+  · simp only []; omega
+
+/-- a non-negative `N` stays non-negative: never more than `N` bytes are handed on -/
+theorem lwWrite_nonneg (N : Int) (s : WStep) (h : 0 ≤ N) : 0 ≤ (lwWrite N s).1 := by
+  unfold lwWrite
+  split
+  · exact h
+  · simp only []
+    split <;> omega
+
+/-- bookkeeping of one `Write`: `N` decreases by exactly what the call reports as written -/
+theorem lwWrite_account (N : Int) (s : WStep) : (lwWrite N s).1 = N - ((lwWrite N s).2.n : Int) := by
+  unfold lwWrite
+  split <;> simp
+
+theorem lwRun_account : ∀ (steps : List WStep) (N : Int),
+    (lwRun N steps).1 = N - (total (lwRun N steps).2 : Int) := by
+  intro steps
+  induction steps with
+  | nil => intro N; simp [lwRun, total]
+  | cons s r ih =>
+    intro N
+    have h1 := ih (lwWrite N s).1
+    have h2 := lwWrite_account N s
+    simp only [lwRun, total, List.map_cons, List.sum_cons] at *
+    rw [h1]
+    omega
+
+theorem lwRun_nonneg : ∀ (steps : List WStep) (N : Int), 0 ≤ N → 0 ≤ (lwRun N steps).1 := by
+  intro steps
+  induction steps with
+  | nil => intro N h; simpa [lwRun] using h
+  | cons s r ih =>
+    intro N h
+    simp only [lwRun]
+    exact ih _ (lwWrite_nonneg N s h)
+
+theorem lwRun_exhausted : ∀ (steps : List WStep) (N : Int), N ≤ 0 →
+    (lwRun N steps).1 = N ∧ total (lwRun N steps).2 = 0 := by
+  intro steps
+  induction steps with
+  | nil => intro N h; simp [lwRun, total]
+  | cons s r ih =>
+    intro N h
+    have hw : lwWrite N s = (N, ⟨0, .limitExceeded⟩) := by simp [lwWrite, h]
+    have := ih N h
+    simp only [lwRun, hw, total, List.map_cons, List.sum_cons] at *
+    exact ⟨this.1, by omega⟩
+
+theorem lwStates_le : ∀ (steps : List WStep) (N : Int), ∀ x ∈ lwStates N steps, x ≤ N := by
+  intro steps
+  induction steps with
+  | nil => intro N x hx; simp [lwStates] at hx
+  | cons s r ih =>
+    intro N x hx
+    simp only [lwStates, List.mem_cons] at hx
+    have h1 := lwWrite_le N s
+    rcases hx with hx | hx
+    · omega
+    · have := ih _ x hx; omega
+
+/-- `N` never increases along any sequence of writes -/
+theorem lwStates_antitone : ∀ (steps : List WStep) (N : Int),
+    List.Pairwise (fun a b => b ≤ a) (N :: lwStates N steps) := by
+  intro steps
+  induction steps with
+  | nil => intro N; simp [lwStates]
+  | cons s r ih =>
+    intro N
+    have h := ih (lwWrite N s).1
+    rw [List.pairwise_cons]
+    refine ⟨?_, by simpa [lwStates] using h⟩
+    intro x hx
+    exact lwStates_le (s :: r) N x hx
+
+/-- **C17 (i), `writer_never_exceeds`.** For every limit, every sequence of writes and every
+behaviour of the underlying writer (short writes, errors, in any call): the bytes passed on
+never exceed the limit, `N` accounts for every byte, `N` never increases and - for a
+non-negative limit - never becomes negative. -/
+theorem writer_never_exceeds (limit : Int) (steps : List WStep) :
+    total (lwRun limit steps).2 ≤ limit.toNat ∧
+    (lwRun limit steps).1 = limit - (total (lwRun limit steps).2 : Int) ∧
+    List.Pairwise (fun a b => b ≤ a) (limit :: lwStates limit steps) ∧
+    (0 ≤ limit → 0 ≤ (lwRun limit steps).1) := by
+  refine ⟨?_, lwRun_account steps limit, lwStates_antitone steps limit, lwRun_nonneg steps limit⟩
+  by_cases h : 0 ≤ limit
+  · have h1 := lwRun_account steps limit
+    have h2 := lwRun_nonneg steps limit h
+    omega
+  · have := (lwRun_exhausted steps limit (by omega)).2
+    omega
+
+/-- every single write: at most what was asked, at most what remains, refused iff nothing remains -/
+theorem lwRun_outsOk : ∀ (steps : List WStep) (N : Int), outsOk N steps (lwRun N steps).2 = true := by
+  intro steps
+  induction steps with
+  | nil => intro N; simp [lwRun, outsOk]
+  | cons s r ih =>
+    intro N
+    have h := ih (lwWrite N s).1
+    rw [lwWrite_account] at h
+    simp only [lwRun, outsOk, Bool.and_eq_true]
+    refine ⟨⟨?_, ?_⟩, ?_⟩
+    · unfold lwWrite
+      split
+      · simp
+      · simp only [decide_eq_true_eq]
+        split <;> omega
+    · unfold lwWrite
+      by_cases hN : N ≤ 0
+      · simp [hN]
+      · simp only [hN, if_false]
+        refine Bool.and_eq_true_iff.2 ⟨?_, ?_⟩
+        · cases s.fail <;> simp
+        · simp only [decide_eq_true_eq]
+          split <;> omega
+    · rw [lwWrite_account]; exact h
+
+/-- when the underlying writer takes everything it is handed (a `bytes.Buffer`), exactly
+`min(limit, bytes offered)` bytes are stored -/
+theorem writer_exact_on_buffer : ∀ (steps : List WStep) (N : Int), 0 ≤ N →
+    (∀ s ∈ steps, s.len ≤ s.accept) →
+    total (lwRun N steps).2 = min N.toNat (steps.map (·.len)).sum := by
+  intro steps
+  induction steps with
+  | nil => intro N _ _; simp [lwRun, total]
+  | cons s r ih =>
+    intro N hN hall
+    have hs : s.len ≤ s.accept := hall s (by simp)
+    have hr : ∀ x ∈ r, x.len ≤ x.accept := fun x hx => hall x (by simp [hx])
+    have h1 := ih (lwWrite N s).1 (lwWrite_nonneg N s hN) hr
+    simp only [lwRun, total, List.map_cons, List.sum_cons] at *
+    rw [h1]
+    unfold lwWrite
+    by_cases h0 : N ≤ 0
+    · have : N = 0 := by omega
+      subst this
+      simp
+    · simp only [h0, if_false]
+      split <;> omega
+
+/-! ### (iv) the wait machine -/
+
+/-- **C17 (iv), `bounded_return`.** If the command is context-bound and `WaitDelay = d`, then
+for *every* behaviour of the plugin and of its descendants (never exiting, holding the pipes
+for ever, …) `cmd.Run()` returns at most `killLatency + d` after the end of the context. -/
+theorem bounded_return (cfg : ExecCfg) (d c kl : Nat) (b : Behaviour)
+    (hctx : cfg.ctxBound = true) (hwd : cfg.waitDelay = some d) :
+    tle (wait cfg kl (some c) b).ret (some (c + kl + d)) = true := by
+  obtain ⟨e, p⟩ := b
+  unfold wait
+  simp only [hctx, hwd, Bool.true_and, if_true]
+  cases e with
+  | none =>
+    cases p <;> simp [tlt, tle, tadd, tmin, tmax] <;> omega
+  | some e =>
+    by_cases hk : c < e
+    · cases p <;> simp [tlt, tle, tadd, tmin, tmax, hk] <;> omega
+    · cases p <;> simp [tlt, tle, tadd, tmin, tmax, hk] <;> omega
+
+/-- the same bound, tighter: the delay counts from the earlier of "context ended" and "child
+exited", and the kill latency and the delay overlap -/
+theorem bounded_return_tight (cfg : ExecCfg) (d c kl : Nat) (b : Behaviour)
+    (hctx : cfg.ctxBound = true) (hwd : cfg.waitDelay = some d) :
+    tle (wait cfg kl (some c) b).ret (tadd (tmin (some c) b.exitAt) (max kl d)) = true := by
+  obtain ⟨e, p⟩ := b
+  unfold wait
+  simp only [hctx, hwd, Bool.true_and, if_true]
+  cases e with
+  | none =>
+    cases p <;> simp [tlt, tle, tadd, tmin, tmax] <;> omega
+  | some e =>
+    by_cases hk : c < e
+    · cases p <;> simp [tlt, tle, tadd, tmin, tmax, hk] <;> omega
+    · cases p <;> simp [tlt, tle, tadd, tmin, tmax, hk] <;> omega
+
+/-- a child that exits by itself without descendants returns at its exit, whatever the configuration -/
+theorem prompt_return (cfg : ExecCfg) (e kl : Nat) (ctxEnd : Time) (hc : tlt ctxEnd (some e) = false) :
+    (wait cfg kl ctxEnd ⟨some e, some 0⟩).ret = some e ∧
+    (wait cfg kl ctxEnd ⟨some e, some 0⟩).killed = false ∧
+    (wait cfg kl ctxEnd ⟨some e, some 0⟩).delayExpired = false := by
+  unfold wait
+  cases hw : cfg.waitDelay <;> cases hb : cfg.ctxBound <;> cases ctxEnd <;>
+    simp_all [tlt, tle, tadd, tmin, tmax] <;> omega
+
+/-- the visible side effect of `WaitDelay`: a plugin that exits by itself (even successfully)
+but leaves a descendant holding its pipes for more than `d` makes `cmd.Run()` return at
+exit + `d` with the pipes closed by force (`ErrWaitDelay`) instead of blocking -/
+theorem abandoned_descendant_cut_off (cfg : ExecCfg) (d e kl : Nat) (ctxEnd p : Time)
+    (hwd : cfg.waitDelay = some d) (hc : tlt ctxEnd (some e) = false) (hp : tlt (some (e + d)) p = true) :
+    (wait cfg kl ctxEnd ⟨some e, p⟩).ret = some (e + d) ∧
+    (wait cfg kl ctxEnd ⟨some e, p⟩).delayExpired = true := by
+  unfold wait
+  cases hb : cfg.ctxBound <;> cases ctxEnd <;> cases p <;>
+    simp_all [tlt, tle, tadd, tmin, tmax] <;> omega
+
+/-- **The fact is necessary (1).** Without `WaitDelay` - whatever else the configuration says,
+context-bound or not - a plugin that exits at once but leaves a descendant holding the pipes
+keeps the call from ever returning … -/
+theorem unbounded_without_wait_delay (cfg : ExecCfg) (c kl : Nat) (hwd : cfg.waitDelay = none) :
+    ∃ b : Behaviour, b.exitAt = some 0 ∧ (wait cfg kl (some c) b).ret = none := by
+  refine ⟨⟨some 0, none⟩, rfl, ?_⟩
+  unfold wait
+  cases hb : cfg.ctxBound <;> simp [hwd, tlt, tle, tadd, tmin, tmax]
+
+/-- … and with descendants that do let go eventually, no bound `B` holds for all of them. -/
+theorem no_bound_without_wait_delay (cfg : ExecCfg) (c kl : Nat) (hwd : cfg.waitDelay = none) (B : Nat) :
+    ∃ b : Behaviour, b.exitAt = some 0 ∧ b.pipesAt = some (B + 1) ∧
+      tle (wait cfg kl (some c) b).ret (some B) = false := by
+  refine ⟨⟨some 0, some (B + 1)⟩, rfl, rfl, ?_⟩
+  unfold wait
+  cases hb : cfg.ctxBound <;> simp [hwd, tlt, tle, tadd, tmin, tmax] <;> omega
+
+/-- **The fact is necessary (2).** Without `exec.CommandContext` a plugin that never exits is
+never killed: the call never returns, `WaitDelay` or not. -/
+theorem unbounded_without_context (cfg : ExecCfg) (c kl : Nat) (hctx : cfg.ctxBound = false) :
+    ∃ b : Behaviour, (wait cfg kl (some c) b).ret = none := by
+  refine ⟨⟨none, some 0⟩, ?_⟩
+  unfold wait
+  cases hw : cfg.waitDelay <;> simp [hctx, tlt, tle, tadd, tmin, tmax]
+
+/-- the bound for the configuration found in the source: at most 5 s (+ kill latency) after the
+end of the context -/
+theorem code_bounded_return (c kl : Nat) (b : Behaviour) :
+    tle (wait codeCfg kl (some c) b).ret (some (c + kl + specDelayMs)) = true := by
+  obtain ⟨d, hd, hle⟩ := codeCfg_waitDelay
+  have h := bounded_return codeCfg d c kl b codeCfg_ctxBound hd
+  cases hr : (wait codeCfg kl (some c) b).ret with
+  | none => simp [hr, tle] at h
+  | some r => simp [hr, tle] at h ⊢; omega
+
+/-! ### (iii) metadata validation -/
+
+/-- **C17 (iii), `metadata_ok_iff`.** `validate` accepts exactly the metadata with every
+mandatory field present and the host's contract version among the supported ones. -/
+theorem metadata_ok_iff (m : Meta) :
+    validateErr m = none ↔
+      (m.name ≠ "" ∧ m.description ≠ "" ∧ m.version ≠ "" ∧ m.url ≠ "" ∧ m.capabilities ≠ [] ∧
+       m.contractVersions.contains Facts.contractVersion = true) := by
+  have hf := facts_validate_checks
+  simp only [Bool.and_eq_true, List.all_eq_true, List.contains_iff_mem] at hf
+  obtain ⟨hsup, hsub⟩ := hf
+  unfold validateErr
+  rw [List.find?_eq_none]
+  constructor
+  · intro h
+    have e1 := h _ (hsup "metadata.Name==\"\"" (by simp [expectedChecks]))
+    have e2 := h _ (hsup "metadata.Description==\"\"" (by simp [expectedChecks]))
+    have e3 := h _ (hsup "metadata.Version==\"\"" (by simp [expectedChecks]))
+    have e4 := h _ (hsup "metadata.URL==\"\"" (by simp [expectedChecks]))
+    have e5 := h _ (hsup "len(metadata.Capabilities)==0" (by simp [expectedChecks]))
+    have e7 := h _ (hsup "!slices.Contains(metadata.SupportedContractVersions,plugin.ContractVersion)"
+      (by simp [expectedChecks]))
+    simp [checkFires] at e1 e2 e3 e4 e5 e7
+    exact ⟨e1, e2, e3, e4, by simpa [List.isEmpty_iff] using e5, by simpa using e7⟩
+  · intro ⟨h1, h2, h3, h4, h5, h7⟩ c hc
+    have h6 : m.contractVersions ≠ [] := by
+      intro h; simp [h] at h7
+    have h7' : Facts.contractVersion ∈ m.contractVersions := by simpa using h7
+    have hc' := hsub c hc
+    simp only [expectedChecks, List.mem_cons, List.not_mem_nil, or_false] at hc'
+    rcases hc' with rfl | rfl | rfl | rfl | rfl | rfl | rfl <;>
+      simp [checkFires, h1, h2, h3, h4, h5, h6, h7', List.isEmpty_iff]
+
+/-! ### (ii) the decision of `run` -/
+
+/-- `cmd.Run()` reported an error -/
+def execFailed (cfg : ExecCfg) (i : Input) (w : WaitOut) : Bool :=
+  !i.executable || w.killed || i.exitCode != 0 || w.delayExpired ||
+    over cfg.stdoutLimit (effOutSize i) || over cfg.stderrLimit (effErrSize i)
+
+/-- **C17 (ii), `run_ok_iff`.** A call succeeds exactly when the process could be started, was
+not killed, exited with status 0, its pipes were closed in time, neither stream ran over its
+limit, stdout decodes into the response - and, for get-plugin-metadata, the metadata
+validates and is named like the plugin. -/
+theorem run_ok_iff (cfg : ExecCfg) (i : Input) (w : WaitOut) :
+    (decide_ cfg i w).1 = .ok ↔
+      (execFailed cfg i w = false ∧ decodes i.stdout = true ∧
+       (i.command = .getMetadata → validateErr (seenMeta i) = none ∧ (seenMeta i).name = i.pluginName)) := by
+  unfold decide_ execFailed
+  by_cases hf : (!i.executable || w.killed || i.exitCode != 0 || w.delayExpired ||
+      over cfg.stdoutLimit (effOutSize i) || over cfg.stderrLimit (effErrSize i)) = true
+  · simp only [hf, if_true]
+    constructor
+    · intro h
+      exfalso
+      split at h
+      · simp at h
+      · split at h
+        · simp at h
+        · split at h
+          · simp at h
+          · split at h <;> simp at h
+          · simp at h
+          · simp at h
+    · intro h; simp at h
+  · have hf' : (!i.executable || w.killed || i.exitCode != 0 || w.delayExpired ||
+      over cfg.stdoutLimit (effOutSize i) || over cfg.stderrLimit (effErrSize i)) = false := by
+      simpa using hf
+    simp only [hf', Bool.false_eq_true, if_false, true_and]
+    by_cases hd : decodes i.stdout = true
+    · simp only [hd, Bool.not_true, Bool.false_eq_true, if_false, true_and]
+      by_cases hc : i.command = .getMetadata
+      · simp only [hc, beq_self_eq_true, if_true, forall_const]
+        cases hv : validateErr (seenMeta i) with
+        | some e => simp
+        | none =>
+          by_cases hn : (seenMeta i).name = i.pluginName
+          · simp [hn]
+          · simp [hn]
+      · have : (i.command == Command.getMetadata) = false := by simpa using hc
+        simp [this, hc]
+    · have : decodes i.stdout = false := by simpa using hd
+      simp [this]
+
+/-- **C17 (ii), `error_mapping`.** When `cmd.Run()` fails: no stderr (or a file that cannot be
+started) gives the executable-file error, an error object carrying a code, a message or
+metadata comes back as the plugin's own error with exactly its code, anything else on stderr
+(not JSON, wrong types, an object with none of the three, more than the cap) is a malformed-plugin
+error - in this order, and stdout plays no role. -/
+theorem error_mapping (cfg : ExecCfg) (i : Input) (w : WaitOut) (hf : execFailed cfg i w = true) :
+    decide_ cfg i w =
+      if !i.executable || (!over cfg.stderrLimit (effErrSize i) && i.stderr == .empty) then (.executableFileError, "")
+      else if !over cfg.stderrLimit (effErrSize i) && i.stderr == .errorObject && errorObjectComplete i
+        then (.pluginError, i.errCode)
+      else (.malformedPluginError, "") := by
+  unfold execFailed at hf
+  unfold decide_
+  simp only [hf, if_true]
+  cases he : i.executable <;> cases ho : over cfg.stderrLimit (effErrSize i) <;>
+    cases hs : i.stderr <;> cases hc : errorObjectComplete i <;> simp
+
+/-- a failing process never yields success, whatever it printed on stdout -/
+theorem failed_never_ok (cfg : ExecCfg) (i : Input) (w : WaitOut) (hf : execFailed cfg i w = true) :
+    (decide_ cfg i w).1 ≠ .ok := by
+  rw [error_mapping cfg i w hf]
+  split
+  · simp
+  · split <;> simp
+
+/-- **`both_streams_capped`.** With both streams behind the limit writer, whatever comes back
+to the caller - a decoded reply or the plugin's error message - was at most the cap on the wire. -/
+theorem both_streams_capped (cfg : ExecCfg) (i : Input)
+    (ho : cfg.stdoutLimit = some specCap) (he : cfg.stderrLimit = some specCap) :
+    (runCall cfg i).withinCap = true := by
+  unfold runCall
+  simp only [decide_eq_true_eq]
+  generalize hw : waitOf cfg i = w
+  cases hr : (decide_ cfg i w).1 with
+  | ok =>
+    simp only []
+    have h := (run_ok_iff cfg i w).1 hr
+    have h1 := h.1
+    unfold execFailed at h1
+    simp only [Bool.or_eq_false_iff] at h1
+    have h2 := h1.1.2
+    simp only [ho, over, decide_eq_false_iff_not] at h2
+    omega
+  | pluginError =>
+    simp only []
+    by_cases hf : execFailed cfg i w = true
+    · rw [error_mapping cfg i w hf] at hr
+      split at hr
+      · simp at hr
+      · split at hr
+        · rename_i h3
+          simp only [Bool.and_eq_true, Bool.not_eq_true'] at h3
+          have h4 := h3.1.1
+          simp only [he, over, decide_eq_false_iff_not] at h4
+          omega
+        · simp at hr
+    · exfalso
+      have hf' : execFailed cfg i w = false := by simpa using hf
+      unfold decide_ at hr
+      unfold execFailed at hf'
+      simp only [hf', Bool.false_eq_true, if_false] at hr
+      split at hr
+      · simp at hr
+      · split at hr
+        · split at hr
+          · simp at hr
+          · split at hr <;> simp at hr
+        · simp at hr
+  | executableFileError => simp [specCap]
+  | malformedPluginError => simp [specCap]
+  | other => simp [specCap]
+
+/-! ### the whole property -/
+
+/-- every clause of `Holds`, for any configuration that is context-bound, has a `WaitDelay` of
+at most 5 s and caps both streams at 64 MiB -/
+theorem holds_of_cfg (cfg : ExecCfg) (d : Nat) (hctx : cfg.ctxBound = true)
+    (hwd : cfg.waitDelay = some d) (hd : d ≤ specDelayMs)
+    (ho : cfg.stdoutLimit = some specCap) (he : cfg.stderrLimit = some specCap) (i : Input) :
+    Holds i (runWith cfg i) = true := by
+  unfold Holds clauses runWith
+  simp only [Clauses.holds_cons, Clauses.holds_nil, Bool.and_true]
+  cases hk : i.kind with
+  | writer =>
+    have h1 := writer_never_exceeds i.limit i.steps
+    have h2 := lwRun_outsOk i.steps i.limit
+    simp [runWriter, h1.1, h1.2.1, h2]
+  | call =>
+    have hcap := both_streams_capped cfg i ho he
+    have hkw : (Kind.call == Kind.writer) = false := by decide
+    have hkc : (Kind.call == Kind.call) = true := by decide
+    simp only [hkw, hkc, beq_self_eq_true, Bool.true_and, Bool.not_true, Bool.false_or, hcap, Bool.or_true,
+      Bool.and_true, Bool.true_and, reduceCtorEq, beq_iff_eq, Bool.false_eq_true, Bool.not_false,
+      Bool.true_or]
+    -- the wait outcome and the failure flag in terms of the input
+    generalize hw : waitOf cfg i = w
+    have hres : (runCall cfg i).result = (decide_ cfg i w).1 := by simp [runCall, hw]
+    have hcode : (runCall cfg i).code = (decide_ cfg i w).2 := by simp [runCall, hw]
+    have hkilled : i.executable = true → w.killed = tlt i.ctxEnd i.exitAt := by
+      intro hx
+      rw [← hw]
+      simp [waitOf, hx, wait, hctx, hwd]
+    have hfail : exitedOk i = false → execFailed cfg i w = true := by
+      intro hx
+      unfold exitedOk at hx
+      unfold execFailed
+      cases hxe : i.executable with
+      | false => simp
+      | true =>
+        have := hkilled hxe
+        by_cases hc : i.exitCode = 0
+        · simp [hxe, hc] at hx
+          simp [this, hx]
+        · simp [hc]
+    have hintime : (!(i.ctxEnd.isSome) || (runCall cfg i).inTime) = true := by
+      cases hc : i.ctxEnd with
+      | none => simp
+      | some c =>
+        simp only [Option.isSome_some, Bool.not_true, Bool.false_or]
+        unfold runCall
+        simp only [hc]
+        unfold waitOf
+        cases hxe : i.executable with
+        | false => simp [tle]
+        | true =>
+          simp only [if_true]
+          have hb := bounded_return cfg d c 0 ⟨i.exitAt, i.pipesAt⟩ hctx hwd
+          rw [hc]
+          cases hr : (wait cfg 0 (some c) ⟨i.exitAt, i.pipesAt⟩).ret with
+          | none => simp [hr, tle] at hb
+          | some r =>
+            simp only [hr, tle, decide_eq_true_eq] at hb ⊢
+            simp only [specDelayMs, marginMs] at *
+            omega
+    rw [hres, hcode]
+    refine Bool.and_eq_true_iff.2 ⟨?_, Bool.and_eq_true_iff.2 ⟨?_, Bool.and_eq_true_iff.2 ⟨?_,
+      Bool.and_eq_true_iff.2 ⟨?_, hintime⟩⟩⟩⟩
+    · -- ok only if clean exit and reply of the expected shape
+      by_cases hok : (decide_ cfg i w).1 = .ok
+      · have h := (run_ok_iff cfg i w).1 hok
+        have hex : exitedOk i = true := by
+          cases hx : exitedOk i with
+          | true => rfl
+          | false => rw [hfail hx] at h; simp at h
+        simp [hok, hex, h.2.1]
+      · simp [hok]
+    · -- metadata
+      by_cases hok : (decide_ cfg i w).1 = .ok
+      · by_cases hc : i.command = .getMetadata
+        · have h := (run_ok_iff cfg i w).1 hok
+          have hm := h.2.2 hc
+          have hdec := h.2.1
+          have hreply : i.stdout = .reply := by
+            cases hs : i.stdout with
+            | reply => rfl
+            | _ =>
+              have hv := (metadata_ok_iff (seenMeta i)).1 hm.1
+              simp [seenMeta, hs, Meta.empty] at hv
+          have hv := (metadata_ok_iff (seenMeta i)).1 hm.1
+          have hn := hm.2
+          simp only [seenMeta, hreply, beq_self_eq_true, if_true] at hv hn
+          obtain ⟨h1, h2, h3, h4, h5, h6⟩ := hv
+          have h1' : i.pluginName ≠ "" := hn ▸ h1
+          have h6' : Facts.contractVersion ∈ i.metadata.contractVersions := by simpa using h6
+          simp [hok, hc, specMetaOk, hreply, h1, h1', h2, h3, h4, h5, h6, h6', hn, List.isEmpty_iff]
+        · simp [hc]
+      · simp [hok]
+    · -- failing process: structured error or typed error
+      cases hx : exitedOk i with
+      | true => simp
+      | false =>
+        simp only [Bool.not_false, Bool.true_and, Bool.not_true, Bool.false_or]
+        rw [error_mapping cfg i w (hfail hx)]
+        unfold printedStructured
+        simp only [he, over]
+        by_cases hsz : effErrSize i ≤ specCap
+        · have hlt : ¬ specCap < effErrSize i := by omega
+          cases hxe : i.executable <;> cases hs : i.stderr <;> cases hcpl : errorObjectComplete i <;>
+            simp [hsz, hlt]
+        · have hlt : specCap < effErrSize i := by omega
+          cases hxe : i.executable <;> cases hs : i.stderr <;> cases hcpl : errorObjectComplete i <;>
+            simp [hsz, hlt]
+    · -- over-cap reply never accepted
+      by_cases hov : specCap < effOutSize i
+      · have hf : execFailed cfg i w = true := by
+          unfold execFailed
+          simp [ho, over, hov]
+        have := failed_never_ok cfg i w hf
+        simp [hov, this]
+      · simp [hov]
+
+/-- **C17, the whole property**: every clause of `Holds` is true of the model's behaviour, for
+all inputs - the configuration being the one read from the source. -/
+theorem model_holds (i : Input) : Holds i (run i) = true := by
+  obtain ⟨d, hd, hle⟩ := codeCfg_waitDelay
+  exact holds_of_cfg codeCfg d codeCfg_ctxBound hd hle codeCfg_stdoutLimit codeCfg_stderrLimit i
+
+/-! ### readable consequences -/
+
+/-- a successful call had a cleanly exited process and a reply of the expected shape -/
+theorem ok_only_if_valid (i : Input) (hk : i.kind = .call) (h : (run i).result = .ok) :
+    exitedOk i = true ∧ decodes i.stdout = true := by
+  have := model_holds i
+  simp [Holds, clauses, Clauses.holds, hk, h] at this
+  exact this.1
+
+/-- successful metadata has every mandatory field, a supported contract version and the plugin's name -/
+theorem metadata_ok_only_if_valid (i : Input) (hk : i.kind = .call) (hc : i.command = .getMetadata)
+    (h : (run i).result = .ok) : specMetaOk i = true := by
+  have := model_holds i
+  simp [Holds, clauses, Clauses.holds, hk, h, hc] at this
+  exact this.2.1
+
+/-- a call bound to a context returns within 5 s (+ margin) of its end, whatever the plugin does -/
+theorem returns_in_time (i : Input) (hk : i.kind = .call) (c : Nat) (hc : i.ctxEnd = some c) :
+    (run i).inTime = true := by
+  have := model_holds i
+  simp [Holds, clauses, Clauses.holds, hk, hc] at this
+  exact this.2.2.2.2.2
+
+/-! ### non-vacuity -/
+
+def okCall : Input :=
+  { kind := .call, command := .getMetadata, pluginName := "foo", executable := true, exitCode := 0,
+    stdout := .reply, stdoutSize := 0,
+    metadata := ⟨"foo", "d", "1.0.0", "u", ["SIGNATURE_GENERATOR.RAW"], ["1.0"]⟩,
+    stderr := .empty, stderrSize := 0, errCode := "", errMessage := false, errMetadata := false,
+    exitAt := some 0, pipesAt := some 0, ctxEnd := some 1000, cancel := false, probes := [500],
+    limit := 0, steps := [] }
+
+/-- a well-behaved plugin succeeds -/
+example : run okCall =
+    { result := .ok, code := "", withinCap := true, inTime := true, doneBy := [true],
+      wouts := [], passed := 0, remaining := 0 } := by decide
+
+/-- a failing plugin that printed a structured error: its code comes back -/
+example : (run { okCall with exitCode := 1, stderr := .errorObject, errCode := "ACCESS_DENIED" }).result = .pluginError ∧
+    (run { okCall with exitCode := 1, stderr := .errorObject, errCode := "ACCESS_DENIED" }).code = "ACCESS_DENIED" := by decide
+
+/-- a descendant holding the pipes for ever: the call comes back 5 s after the plugin's exit, as a failure -/
+example : run { okCall with pipesAt := none, probes := [4999, 5000] } =
+    { result := .executableFileError, code := "", withinCap := true, inTime := true, doneBy := [false, true],
+      wouts := [], passed := 0, remaining := 0 } := by decide
+
+/-- a plugin that never exits is killed at the deadline -/
+example : (run { okCall with exitAt := none, probes := [999, 1000] }).doneBy = [false, true] := by decide
+
+/-- the same descendant without `WaitDelay`: the call never returns -/
+example : (wait { codeCfg with waitDelay := none } 0 (some 1000) ⟨some 0, none⟩).ret = none := by decide
+
+/-- metadata under another name is refused -/
+example : (run { okCall with pluginName := "bar" }).result = .other := by decide
+
+/-- the limit writer: 10 bytes of budget, writes of 6, 6, 6 into a buffer -/
+example : lwRun 10 [⟨6, 100, false⟩, ⟨6, 100, false⟩, ⟨6, 100, false⟩] =
+    (0, [⟨6, .ok⟩, ⟨4, .ok⟩, ⟨0, .limitExceeded⟩]) := by decide
+
+/-- `Holds` is false of wrong observations: success of a failing process … -/
+example : Holds { okCall with exitCode := 1 }
+    { result := .ok, code := "", withinCap := true, inTime := true, doneBy := [true],
+      wouts := [], passed := 0, remaining := 0 } = false := by decide
+
+/-- … a call that came back late … -/
+example : Holds okCall
+    { result := .ok, code := "", withinCap := true, inTime := false, doneBy := [true],
+      wouts := [], passed := 0, remaining := 0 } = false := by decide
+
+/-- … and a writer that let 11 bytes through a limit of 10. -/
+example : Holds { okCall with kind := .writer, limit := 10, steps := [⟨11, 100, false⟩] }
+    { result := .ok, code := "", withinCap := true, inTime := true, doneBy := [],
+      wouts := [⟨11, .ok⟩], passed := 11, remaining := -1 } = false := by decide
 
 end NotationModel.C17
